@@ -235,7 +235,7 @@ def strat_case(draw):
             cmd = draw(argv_gen.numeric_random_command())
         else:
             cmd = draw(argv_gen.deterministic_numeric_command())
-        chain = draw(argv_gen.tchain(max_len=2)) if tool == 'cnfgen' else []
+        chain = draw(argv_gen.tchain(max_len=2, allow_expanding=cmd[0] not in argv_gen.WIDE)) if tool == 'cnfgen' else []
         out = draw(st.sampled_from(argv_gen.OUTPUT_OPTS + [['-o', '@OUT'], ['-o', '@OUT.tex'], ['-o', '@OUT.opb'], ['-o', '@DIR'], ['-h'], ['--help-graph']]))
         if tool == 'pbgen':
             out = [] if ('dimacs' in out) else out
